@@ -18,6 +18,7 @@ from sim.vkernel import K
 
 ID = 'C17'
 LEVEL = 'fault_enumeration'
+EVAL_PROBE = 'faulted-runs'
 ENGINE = 'fault'
 BUDGET = {'quick': 120, 'thorough': 5000}
 WALL = {'quick': 50, 'thorough': 1800}
